@@ -257,6 +257,8 @@ def check(ctx, tier):
     obs += ctx.attempt(tracked_set_pairing, ctx, "D-c", default=[])
     from ..rules import plumb as _plumb
     obs += ctx.attempt(_plumb.namespace_orientation, ctx, "D-h", default=[])
+    from ..rules import scanner as _scanner        # endpoint answers arrive as bare tokens: their typing is the local reader's
+    obs += ctx.attempt(_scanner.numeric_token_table, ctx, "D-i", default=[])
     exceptions.apply(obs)
     return {"obs": obs, "floors": [Floor("EndpointSGraph construction sites", n_sites, 3), Floor("cache-flag control sites", len(oi.sites), 4),
                                    Floor("options common to both passes", n_tp, 20)],
